@@ -38,7 +38,7 @@ ROUTED_INT = ["full", "full", "floyd", "floyd", "star", "star", "dijkstra", "dij
 LEAVES = ["full", "full", "full", "floyd", "floyd", "star", "star", "dijkstra", "dijkstracache", "vivaldi"]
 XML_INT = ["full", "full", "floyd", "dijkstra", "dijkstracache"]
 XML_LEAF = ["full", "full", "floyd", "dijkstra", "dijkstracache"]
-MAX_RISKY = 40
+MAX_RISKY = 60
 
 
 # ---------------------------------------------------------------------------------------------------------------------
@@ -185,7 +185,8 @@ class Case:
         if len(risky) > MAX_RISKY:           # each of them may kill the child: bounded, evenly spread sample
             step = len(risky) / float(MAX_RISKY)
             risky = [risky[int(i * step)] for i in range(MAX_RISKY)]
-        self.queries = safe + risky          # pairs that may crash the child (known deviations) are asked last
+        self.queries = safe + risky          # pairs that may crash the child (known deviations) are asked last ...
+        self.risky = set(risky)              # ... and each in a forked copy of the child (QF), so that a crash only loses that answer
         self.answers = {}
         self.xml_path = None
 
@@ -200,7 +201,7 @@ class Case:
             lines = ["XML " + self.xml_path]
         else:
             lines = list(self.plat.lines)
-        r.lines = lines + ["Q %s %s" % q for q in queries]
+        r.lines = lines + [("QF %s %s" if q in self.risky else "Q %s %s") % q for q in queries]
         return r
 
     def witness(self):
@@ -258,7 +259,10 @@ def judge_pair(ctx, case, pair, obs, corrupt=None):
     a, b = pair
     p = case.plat
     w = dict(case.witness(), pair=[a, b])
-    if exc is not None:
+    if exc is not None and exc.startswith("CRASH "):
+        key = symptom_key(case, info, "crash:" + exc[6:])
+        what = "%s: route_to(%s -> %s) killed the process (%s); documented composition gives %r" % (case.id, a, b, exc[6:], exp_links)
+    elif exc is not None:
         key = symptom_key(case, info, "exception")
         what = "%s: route_to(%s -> %s) raised %r; documented composition gives %r (latency %.12g)" % (case.id, a, b, exc, exp_links, exp_lat)
     elif links != exp_links:
@@ -285,7 +289,9 @@ def judge_pair(ctx, case, pair, obs, corrupt=None):
         key = symptom_key(case, info, "latency")
         what = "%s: route_to(%s -> %s) links %r as expected but latency %.17g, sum of link latencies%s is %.17g" % (
             case.id, a, b, links, lat, " + Vivaldi terms" if info.vivaldi else "", exp_lat)
-    ctx.violation(key, what, w)
+    r = ctx.violation(key, what, w)
+    if os.environ.get("VERIF_DEBUG") and r == "known":
+        print("DEBUG known %s: %s" % (key, what[:700]))
     return False
 
 
@@ -342,8 +348,10 @@ def judge_case(ctx, case, scratch, state, corrupt=None):
             sym = "crash:" + ("sanitizer" if any("Sanitizer" in l for l in reps) and res.status.startswith("exit") else res.status)
             if not info.unjudged:
                 ctx.count("pairs_judged")
-            ctx.violation(symptom_key(case, info, sym), "%s: route_to(%s -> %s) killed the process (%s): %s; documented composition gives %r"
-                          % (case.id, a, b, res.status, (reps or res.noise)[:2], case.exp[(a, b)][0]), w)
+            r = ctx.violation(symptom_key(case, info, sym), "%s: route_to(%s -> %s) killed the process (%s): %s; documented composition gives %r"
+                              % (case.id, a, b, res.status, (reps or res.noise)[:2], case.exp[(a, b)][0]), w)
+            if os.environ.get("VERIF_DEBUG") and r == "known":
+                print("DEBUG known crash %s %s %s->%s %s" % (symptom_key(case, info, sym), case.id, a, b, (reps or res.noise)[:2]))
             verdict = "bad"
         remaining = remaining[n + 1:]
         if attempt >= 6 and remaining:
@@ -380,6 +388,8 @@ def shipped_smoke(ctx, scratch):
             ctx.violation("C24:deep-gateway:crash:shipped:%s" % os.path.basename(rel),
                           "%s: route_to(%s -> %s) does not answer (%s): %s" % (rel, a, b, why, [l for l in res.noise if "CRITICAL" in l or "Sanitizer" in l][:1]),
                           {"shipped": rel, "pair": [a, b]})
+            if os.environ.get("VERIF_DEBUG"):
+                print("DEBUG shipped", res.status, res.noise[:5], res.routes)
 
 
 def nontrivial(case):
